@@ -27,9 +27,73 @@ def _two_sessions(pair):
     return case
 
 
+def counting_cases(algo):
+    """archives whose key LISTING is lossy or unusable for the harness (json directory archive under raw tuple keys: keys come back as lists) are
+    outside the observed-pre-state oracle; the derived clause needs no observation: with the archive attached all along and nothing cleared, every
+    distinct argument is evaluated exactly once, across evictions, purges, dump() and a second decorator on the same directory"""
+    from hypothesis import strategies as st
+    return st.fixed_dictionaries({
+        'part': st.just('count'), 'module': st.sampled_from(['std', 'safe']), 'algo': st.just(algo), 'maxsize': st.sampled_from([1, 2, 3]), 'purge': st.booleans(),
+        'arch': st.sampled_from(['dir_json', 'dir_json', 'dir_dill', 'dir_fast']), 'typed': st.booleans(),
+        'ops': st.lists(st.one_of(st.tuples(st.just('call'), st.integers(0, 5), st.integers(0, 1)).map(list), st.just(['dump']), st.just(['second'])), min_size=3, max_size=25)})
+
+
+def run_counting(case):
+    import os
+    import klepto.archives as KA
+    from klepto.keymaps import keymap as rawmap
+    out = []
+    algo = case['algo']
+    classes = ['part:count', 'module:' + case['module'], 'eff_algo:' + algo, 'count_arch:' + case['arch']]
+    evals = {}
+
+    def body(x, y=0):
+        evals[(x, y)] = evals.get((x, y), 0) + 1
+        return 'r%d.%d' % (x, y)
+    with H.Scratch() as sc:
+        path = os.path.join(sc.path, 'store')
+
+        def mk():
+            kw = {'protocol': 'json'} if case['arch'] == 'dir_json' else ({'fast': True} if case['arch'] == 'dir_fast' else {})
+            c = KA.dir_archive(path, cached=True, **kw)
+            # (a typed raw key holds type objects, which the JSON codec cannot write: typed keys only with the pickling directory archives)
+            dkw = {'cache': c, 'keymap': rawmap(typed=case['typed'] and case['arch'] != 'dir_json')}
+            if algo not in ('no', 'inf'):
+                dkw.update(maxsize=case['maxsize'], purge=case['purge'])
+            return H.decorator_class(case['module'], algo)(**dkw)(body)
+        f = mk()
+        repeat = 0
+        for i, op in enumerate(case['ops']):
+            try:
+                if op[0] == 'call':
+                    if (op[1], op[2]) in evals:
+                        repeat += 1
+                    r = f(op[1], op[2]) if op[2] else f(op[1])
+                    if r != 'r%d.%d' % (op[1], op[2]):
+                        out.append(Discrepancy('C02/count/%s/wrong-result' % algo, 'step %d: %r' % (i, r)))
+                elif op[0] == 'dump':
+                    f.dump()
+                else:
+                    f.dump()
+                    f = mk()            # a second decorator on the same directory (after a dump: nothing is only in memory)
+                    classes.append('second_decorator')
+            except Exception as e:
+                out.append(Discrepancy('C02/count/%s/raised/%s' % (algo, H.exc_sig(e)), 'step %d %r: %r' % (i, op, e)))
+            twice = [k for k, n in evals.items() if n > 1]
+            if twice and not out:
+                out.append(Discrepancy('C02/count/%s/key-evaluated-twice-with-archive-attached' % algo, 'step %d: arguments %r evaluated %d times (%s, raw%s keys); ops %r' % (
+                    i, twice[0], evals[twice[0]], case['arch'], ' typed' if case['typed'] else '', case['ops'][:i + 1])))
+            if out:
+                break
+    if repeat:
+        classes.append('count_repeat_call')
+    nt = ('count', case['module'], algo, case['arch'], case['maxsize'], case['purge'], tuple(map(tuple, case['ops']))) if repeat else None
+    return out[:1], nt, classes
+
+
 def strata(tier):
     from hypothesis import strategies as st
-    return [(n, st.tuples(s, st.sampled_from([0, 0, 1])).map(_two_sessions)) for n, s in _strata(tier)]
+    return [('counting/' + a, counting_cases(a)) for a in H.ALGOS] + [(n, st.tuples(s, st.sampled_from([0, 0, 1])).map(_two_sessions)) for n, s in _strata(tier)]
 
 
 def _strata(tier):
@@ -111,6 +175,8 @@ def per_call(case, tr, flags=None):
 
 
 def run_case(case):
+    if case.get('part') == 'count':
+        return run_counting(case)
     tr = H.run_history(case, fork_check=per_call)
     flags = {'repeat_after_eviction': 0, 'repeat_after_switch': 0, 'fork': 0, 'ev': []}
     discrs = per_call(case, tr, flags)
@@ -121,5 +187,5 @@ def run_case(case):
     return discrs, nt, sorted(set(classes))
 
 
-REQUIRED_CLASSES = ['two_live_sessions', 'relative_dir_archive:existing', 'chdir_away', 'repeat_after_eviction', 'repeat_after_switch', 'fork', 'module:safe', 'eff_algo:no', 'eff_algo:mru', 'eff_algo:lfu', 'eff_algo:rr']
+REQUIRED_CLASSES = ['count_repeat_call', 'second_decorator', 'two_live_sessions', 'relative_dir_archive:existing', 'chdir_away', 'repeat_after_eviction', 'repeat_after_switch', 'fork', 'module:safe', 'eff_algo:no', 'eff_algo:mru', 'eff_algo:lfu', 'eff_algo:rr']
 TRIGGERS = {}
